@@ -279,15 +279,27 @@ macro_rules! point_systems {
                     lists.push((0..len).map(|j| (j * (v + 1) + v + j / 3) % 4).collect());
                 }
             }
+            // every length up to 160 (thorough: 700), two arrangements each: an implementation that sums in blocks, in
+            // pairs or with a compensation has its seams somewhere (a block of 64: first wrong at 65)
+            let longest = rep.pick(160, 700);
+            for len in 13..=longest {
+                for v in 0..2usize {
+                    lists.push((0..len).map(|j| (j * (2 * v + 1) + v + j / 5) % 4).collect());
+                }
+            }
             rep.cases(
                 concat!("centroid/", stringify!($Pt)),
                 D::NAME,
-                "every list of length 1..4 over a 4-point alphabet (340 lists) and 40 lists of length 5..12",
+                "every list of length 1..4 over a 4-point alphabet (340 lists), 40 lists of length 5..12 and two lists of every length 13..160 (thorough: ..700)",
                 lists.len(),
                 Guard::states(340).distinct(20),
                 |i, ctx| {
                     let list: Vec<$Pt<D>> = lists[i].iter().map(|&j| $mkp(pts[j])).collect();
-                    ctx.describe(|| format!("centroid of {:?}", list));
+                    if D::from_r((list.len() as i64, 1)).is_none() {
+                        ctx.skip("the scalar type cannot hold n");
+                        return;
+                    }
+                    ctx.describe(|| format!("centroid of {} points {:?} ...", list.len(), &list[..list.len().min(16)]));
                     ctx.out(&lists[i]);
                     let got = $pa($Pt::centroid(&list));
                     let n = list.len();
